@@ -197,9 +197,11 @@ HOSTILE_ARGS = [
     ("ellipsis", "[...]"), ("frozenset", "[frozenset({1, 2})]"), ("empty-set", "[set()]"), ("nested-inf", "[[float('inf'), {'k': float('nan')}]]"),
     ("date", "[__import__('datetime').date(2020, 1, 2)]"), ("generator", "[(i for i in range(3))]"), ("iterator", "[iter([1, 2])]"),
     ("exception-object", "[ValueError('v')]"), ("module", "[__import__('math')]"), ("memoryview", "[memoryview(b'ab')]"),
+    ("huge-int", "[10 ** 5000]"), ("huge-int-in-a-list", "[[1, 10 ** 4400]]"), ("very-long-str", "['z' * 100000]"),
 ]
 ALIASED_ARGS = [("same-list-twice", "(lambda x: [x, x])([1, 2])"), ("same-dict-twice", "(lambda x: [x, x])({'k': 1})"),
-                ("list-and-list-holding-it", "(lambda x: [x, [x]])([1])")]
+                ("list-and-list-holding-it", "(lambda x: [x, [x]])([1])"), ("pair-of-the-same-list-inside-one-argument", "(lambda x: [[x, x]])([1, 2])"),
+                ("dict-with-the-same-list-twice", "(lambda x: [{'a': x, 'b': x}])([1])"), ("list-containing-itself", "(lambda a: (a.append(a), [a])[1])([5])")]
 
 
 def check_program(ctx, case):
@@ -457,6 +459,9 @@ def special_programs():
                 [('describe_dog', ["ns:[Dog('fido', ['roll'])]"]), ('teach', ["ns:[Dog('fido', []), 'beg']", "ns:[rex, 'beg']"]), ('same', ["ns:[rex, rex]", "ns:[Dog('a', []), Dog('a', [])]"])]))
     out.append(('aliased-arguments', "def grow(a, b):\n    a.append(1)\n    return len(b)\ndef same(a, b):\n    return a is b\ndef put(d, e):\n    d['new'] = 1\n    return sorted(e)\n",
                 [('grow', [a for _, a in ALIASED_ARGS[:1]] + ['[[1], [1]]']), ('same', [a for _, a in ALIASED_ARGS] + ['[[1], [1]]']), ('put', [ALIASED_ARGS[1][1]])]))
+    out.append(('aliasing-inside-one-argument', "def first_grows(pair):\n    pair[0].append(9)\n    return len(pair[1])\ndef same_inside(d):\n    return d['a'] is d['b']\n"
+                "def depth(a):\n    return 1 if a[1] is a else 0\n",
+                [('first_grows', [ALIASED_ARGS[3][1], '[[[1], [1]]]']), ('same_inside', [ALIASED_ARGS[4][1]]), ('depth', [ALIASED_ARGS[5][1]])]))
     out.append(('any-value-passed-through', "def ident(v):\n    return v\ndef kind(v):\n    return type(v).__name__\ndef both(v, w=None):\n    return [kind(v), kind(w)]\n",
                 [('ident', [a for _, a in HOSTILE_ARGS]), ('kind', [a for _, a in HOSTILE_ARGS]), ('both', ["[object(), 5]", "[3, len]"])]))
     out.append(('failure-in-a-method-chain', "class Node:\n    def __init__(self, nxt):\n        self.nxt = nxt\n    def depth(self):\n        if self.nxt is None:\n"
@@ -464,11 +469,41 @@ def special_programs():
     return out
 
 
+def check_results_passed_back(ctx):
+    """the value one call returned (a result proxy) handed to the next call: the student's function must see the value itself"""
+    from pedal.core.commands import clear_report, contextualize_report
+    from pedal.sandbox import commands as sbx
+    src = ("def make(n):\n    return list(range(n))\ndef kind(v):\n    return type(v).__name__\ndef is_list(v):\n    return type(v) is list\n"
+           "def pick(seq, i):\n    return seq[i]\ndef third():\n    return 2\ndef text(n):\n    return 'ab' * n\n")
+    ns = {}
+    exec(compile(src, 'answer.py', 'exec'), ns)
+    clear_report()
+    contextualize_report(src)
+    sbx.run()
+    for n in (3, 150):          # a short and a long (> 200 characters) value
+        case = {'src': src, 'scenario': 'result-passed-back', 'n': n}
+        try:
+            made = sbx.call('make', n)
+            got = [unwrap(sbx.call('kind', made)), unwrap(sbx.call('is_list', made)), unwrap(sbx.call('pick', made, sbx.call('third'))),
+                   unwrap(sbx.call('pick', 'abcdef', sbx.call('third'))), unwrap(sbx.call('kind', sbx.call('text', n)))]
+            e = sbx.get_exception()
+        except BaseException as ex:
+            ctx.violation('C06|call-raised-with-an-earlier-result-as-argument|%s' % type(ex).__name__, case, traceback.format_exc()[-400:])
+            continue
+        want = [ns['kind'](ns['make'](n)), True, ns['make'](n)[2], 'c', 'str']
+        ctx.count('results_passed_back_checked')
+        if e is not None or got != want:
+            ctx.violation('C06|call-result-differs|earlier-result-as-argument|%s' % ('long' if n > 100 else 'short'), case,
+                          'direct calls give %r; through the sandbox %r (exception %r)' % (want, got, e))
+
+
 def run(ctx):
     from gen.programs import gen_program
     rng = ctx.rng
     n = ctx.pick(600, 12000)
     nval = ctx.pick(2, 25)
+    if ctx.shard % 4 == 0:
+        check_results_passed_back(ctx)
     specials = special_programs()
     for name, src, functions in specials[ctx.shard % 3::3]:
         ctx.seen('special_programs', name)
@@ -508,6 +543,8 @@ def run(ctx):
 
 
 def replay(ctx, case):
+    if case.get('scenario') == 'result-passed-back':
+        return check_results_passed_back(ctx)
     case = dict(case)
     case.pop('_rng', None)
     call = case.pop('call', None)
